@@ -12,7 +12,8 @@ PROP = {
         "needs_binary": True,
         "obligations": [
             "never_panics", "exit_code_spec", "exit1_names_input", "stdout_only_data", "msgpack_never_to_tty",
-            "tty_output_not_msgpack", "aliases", "help_then_error_vs_error_then_help", "help_write_errors_ignored",
+            "tty_output_not_msgpack", "aliases", "first_decisive_token", "first_decisive_token_run",
+            "help_then_error_vs_error_then_help", "help_write_errors_ignored",
         ],
         "trusted_base": CLI_BASE,
         "assumptions": [
